@@ -496,8 +496,16 @@ def cold_child(seed, n_threads, per_thread, prob, theme="mixed", mod=(1, 0)):
 # ---- threads, cold start, systematic: ONE preemption at every line of the first use -------------------------
 def switch_vectors(theme, seed):
     """(vector of thread A, vectors of thread B): all of the theme's kind, different from each other."""
+    import random
     pool, first = cold_pool("%s-switch" % seed, theme)
-    return first[0], first[1:4]
+    vA = first[0]
+    # thread B: the SAME assignment in another spelling (whatever A is building lazily for this very vector --
+    # its macrovector, its scope, its field table -- is what B asks for), the same string, and two others of the kind
+    ver, s = vA
+    rng = random.Random("C19-switch-twin-%s-%s" % (seed, theme))
+    p, fields = T.parse(ver, s)
+    twin = V.spell(p, V.nd_variants(ver, dict(fields), rng, 1)[-1], "shuffle", rng)
+    return vA, [(ver, twin), vA] + first[1:3]
 
 
 def cold_switch_parent(theme, seed, part, nparts):
